@@ -341,7 +341,10 @@ def sleSetupC (c : Cls α) (cache : SCache) (r : Rows α) (j : Nat) : SCache × 
   let mol := tab c.n fun i => get r.l i + get r.s i
   if isNZ (get mol j) then
     let nz := nzKeys c mol
-    if cache.nz = some nz then (cache, .ok ())
+    if cache.nz = some nz then
+      -- (repaired behaviour, fixes_proposed/C03-3.md: the re-use path runs the same `self._index.index(solute_index)`
+      --  as the rebuild path; as found it skipped the check and went on with a solute outside the index)
+      if j ∈ cache.idx then (cache, .ok ()) else (cache, .error .notIndexed)
     else
       let idx := lleIndex c mol
       if idx.length = 1 then ({ cache with pure := true }, .ok ())
